@@ -200,6 +200,8 @@ module Z :
 
   val to_N : z -> n
 
+  val of_nat : nat -> z
+
   val of_N : n -> z
 
   val pos_div_eucl : positive -> z -> z * z
@@ -897,3 +899,45 @@ val genesis_validator : state -> ((bytes * bytes) * z) -> state
 
 val init_chain :
   state -> ((bytes * bytes) * z) list -> z -> (state * update list) option
+
+val uvarint_enc : nat -> z -> bytes
+
+val uvarint : z -> bytes
+
+val uvarint_dec : nat -> bytes -> z -> z -> z -> (z * bytes) option
+
+val uvarint_decode : bytes -> (z * bytes) option
+
+val frame : bytes -> bytes
+
+val unframe : bytes -> (bytes * bytes) option
+
+val digits : nat -> z -> bytes
+
+type tfields = { t_year : z; t_month : z; t_day : z; t_hour : z; t_min : 
+                 z; t_sec : z; t_nano : z }
+
+val time_text : tfields -> bytes
+
+type json =
+| JNull
+| JBool of bool
+| JStr of bytes
+| JArr of json list
+| JObj of (bytes * json) list
+
+val canon : json -> json
+
+val hexd : z -> n
+
+val esc : n -> bytes
+
+val quote : bytes -> bytes
+
+val render : json -> bytes
+
+val sort_json : json -> bytes
+
+val sign_doc : bytes -> bytes -> bytes -> json -> json -> json
+
+val sign_bytes : bytes -> bytes -> bytes -> json -> json -> bytes
